@@ -165,6 +165,8 @@ struct World {
     strings: u64,
     problems: Vec<String>,
     xdg: String,
+    /// number of update-engine calls so far (each one is preceded by an edit of the user's auto-correct file)
+    updates: u64,
 }
 
 unsafe fn take_string(w: &mut World, p: *mut c_char, expect: &str, what: &str) {
@@ -224,7 +226,7 @@ unsafe fn set_profile(w: &mut World, p: u8) {
 
 impl World {
     fn new(xdg: &str) -> World {
-        World { cfg: std::ptr::null_mut(), cfg_profile: 0, ctx: std::ptr::null_mut(), twin: None, sugs: vec![None, None], last_len: 0, last_nonempty: false, calls: 0, strings: 0, problems: vec![], xdg: xdg.to_string() }
+        World { cfg: std::ptr::null_mut(), cfg_profile: 0, ctx: std::ptr::null_mut(), twin: None, sugs: vec![None, None], last_len: 0, last_nonempty: false, calls: 0, strings: 0, problems: vec![], xdg: xdg.to_string(), updates: 0 }
     }
     fn enabled(&self, profiles: u8) -> Vec<Act> {
         let mut v = vec![];
@@ -426,6 +428,21 @@ impl World {
                     self.last_nonempty = false;
                     self.last_len = 0;
                     self.calls += 1;
+                }
+                // the user's auto-correct file changes before every update-engine (written with entries for the two letter keys,
+                // removed again by the next one; modification time set explicitly): the C function must pick the change up
+                // exactly as the Rust method does - also when it is handed the configuration the context already uses
+                {
+                    self.updates += 1;
+                    let f = format!("{}/openbangla-keyboard/autocorrect.json", self.xdg);
+                    if self.updates % 2 == 1 {
+                        let _ = std::fs::write(&f, r#"{"a":"kha","k":"ga","ak":"Dho"}"#);
+                        if let Ok(h) = std::fs::File::options().write(true).open(&f) {
+                            let _ = h.set_modified(std::time::UNIX_EPOCH + std::time::Duration::from_secs(1_700_000_000 + 10 * self.updates));
+                        }
+                    } else {
+                        let _ = std::fs::remove_file(&f);
+                    }
                 }
                 riti_context_update_engine(self.ctx, self.cfg);
                 if let Some(t) = self.twin.as_mut() {
